@@ -1208,7 +1208,14 @@ fn write_central_directory_header<T: Write>(writer: &mut T, file: &ZipFileData) 
     // file name length
     writer.write_u16::<LittleEndian>(file.file_name.as_bytes().len() as u16)?;
     // extra field length
-    writer.write_u16::<LittleEndian>(zip64_extra_field_length + file.extra_field.len() as u16)?;
+    let extra_field_length = u16::try_from(zip64_extra_field_length as usize + file.extra_field.len())
+        .map_err(|_| {
+            ZipError::Io(io::Error::new(
+                io::ErrorKind::InvalidData,
+                "Extra data exceeds extra field",
+            ))
+        })?;
+    writer.write_u16::<LittleEndian>(extra_field_length)?;
     // file comment length
     writer.write_u16::<LittleEndian>(0)?;
     // disk number start
@@ -1234,7 +1241,9 @@ fn write_central_directory_header<T: Write>(writer: &mut T, file: &ZipFileData) 
 fn validate_extra_data(file: &ZipFileData) -> ZipResult<()> {
     let mut data = file.extra_field.as_slice();
 
-    if data.len() > spec::ZIP64_ENTRY_THR {
+    // The local header also carries the 20-byte ZIP64 record of a large file.
+    let reserved = if file.large_file { 20 } else { 0 };
+    if data.len() + reserved > spec::ZIP64_ENTRY_THR {
         return Err(ZipError::Io(io::Error::new(
             io::ErrorKind::InvalidData,
             "Extra data exceeds extra field",
